@@ -47,6 +47,13 @@ theorem output_eq_leaves_mod_commas (o : Opts) (d : Doc) (hnl : NlWs o) (hd : Fm
     (nonws (render o d).text).filter (· ≠ ',') = (nonws (leaves d)).filter (· ≠ ',') :=
   (ifbreak_only_separator o d hnl hd).filter_eq.symm
 
+/-- … hence the formatter's settings (`max_width`, `indent_width`, newline style) choose layout and
+    optional trailing commas only: two renderings of one formatter document under any two option sets agree
+    char for char once whitespace and commas are dropped. -/
+theorem output_opts_invariant (o o' : Opts) (d : Doc) (hnl : NlWs o) (hnl' : NlWs o') (hd : FmtDoc d) :
+    (nonws (render o d).text).filter (· ≠ ',') = (nonws (render o' d).text).filter (· ≠ ',') := by
+  rw [output_eq_leaves_mod_commas o d hnl hd, output_eq_leaves_mod_commas o' d hnl' hd]
+
 /-- A group that ends in `if_break(",")` — the shape the formatter builds for lists. -/
 def listExample : Doc :=
   .group (.concat [.text ['{'], .indent 1 (.concat [.line [], .text ['a'], .text [','], .line [' '], .text ['b'],
